@@ -617,13 +617,45 @@ def _preprocessors(check: Check):
         st.value.func) == 'tuple' for st in init.node.body)
     ap = ci.method('append')
     ff = FuncFlow.of(repo, ap)
-    ok = False
+    ok = None
+    fnp = ap.positional_params[1]
+
+    def seq_of(e):
+      """['self._fns', 'fn'] style description of a concatenation / display, None when it is something else."""
+      if isinstance(e, ast.BinOp) and isinstance(e.op, ast.Add):
+        l, r = seq_of(e.left), seq_of(e.right)
+        return None if l is None or r is None else l + r
+      if isinstance(e, (ast.Tuple, ast.List)):
+        out = []
+        for x in e.elts:
+          if isinstance(x, ast.Starred):
+            sub = seq_of(x.value)
+            if sub is None:
+              return None
+            out += sub
+          elif ff.param_of(x) == fnp:
+            out.append('fn')
+          else:
+            return None
+        return out
+      if txt(e) == 'self._fns':
+        return ['chain']
+      if isinstance(e, ast.Call) and txt(e.func) in ('tuple', 'list') and len(e.args) == 1:
+        return seq_of(e.args[0])
+      return None
     for _, rv in ff.returns():
-      if isinstance(rv, ast.Call) and txt(rv.func) == cname and len(rv.args) == 1:
-        a = rv.args[0]
-        ok = isinstance(a, ast.BinOp) and isinstance(a.op, ast.Add) and txt(a.left) == 'self._fns' and isinstance(
-            a.right, ast.Tuple) and len(a.right.elts) == 1 and ff.param_of(a.right.elts[0]) == ap.positional_params[1]
-    check.ob('R-DERIVE.chain', ap, f'{cname}(self._fns + (fn,))', ok and tup,
+      for v in (ff.expand(rv) if rv is not None else []):
+        if isinstance(v, ast.Call) and txt(v.func) == cname and (len(v.args) == 1 or (not v.args and len(v.keywords) == 1)):
+          a = v.args[0] if v.args else v.keywords[0].value
+          for w in ff.expand(a):
+            sq = seq_of(w)
+            if sq is not None:
+              ok = sq == ['chain', 'fn']
+    in_place = any(isinstance(c.func, ast.Attribute) and c.func.attr in ('append', 'extend', 'insert') and txt(c.func.value) == 'self._fns'
+                   for _, c in ff.calls())
+    if in_place:
+      ok = False
+    check.ob('R-DERIVE.chain', ap, f'{cname}(self._fns + (fn,))', (ok and tup) if ok is not None else None,
              f'appending registers fn last and builds a new chain; the stored chain is an immutable tuple (ok={tup})')
     call = ci.method('__call__')
     cff = FuncFlow.of(repo, call)
